@@ -513,10 +513,26 @@ Definition rules_fix (vr : list (bytes * list vrule)) (p : bytes) : list rule :=
 (** handler kind 5 (harness/src/c05.rs only): "<body>?<query>" followed by the transformed tuple, i.e. kind 3
     with the query made part of the prefix — for pages whose cache key includes the query *)
 Definition q_part (r : request) : bytes := match rq_query r with Some (c :: q) => 63 :: c :: q | _ => [] end.
+(** handler kind 6 (harness/src/c05.rs only): kind 3 whose variants differ in cacheability — the handler declares
+    [ServerCachePreference::None] when the first component it renders is empty or starts with 'n', 'z' or '0' — so
+    that a page has variants that [handle_vary_missing] must not admit to the cache *)
+Definition picky_refused (v : bytes) : bool :=
+  match v with [] => true | c :: _ => (c =? 110) || (c =? 122) || (c =? 48) end.
+Definition first_component (h : hspec) (r : request) : option bytes :=
+  match h_tuple h with
+  | (n, xf, d) :: _ => Some (match header_text n r with Some v => xform xf v | None => d end)
+  | [] => None
+  end.
 Definition handlers_c05 (handlers : list hspec) (r : request) : list hspec :=
   map (fun h => if h_kind h =? 5
                 then mkH (h_path h) 3 (h_status h) (h_body h ++ q_part r) (h_headers h) (h_spref h) (h_cpref h)
                          (h_compress h) (h_tuple h)
+                else if h_kind h =? 6
+                then mkH (h_path h) 3 (h_status h) (h_body h) (h_headers h)
+                         (match first_component h r with
+                          | Some v => if picky_refused v then SP_NONE else h_spref h
+                          | None => h_spref h
+                          end) (h_cpref h) (h_compress h) (h_tuple h)
                 else h) handlers.
 Definition compute_c05 (handlers : list hspec) (hs : list N) (r : request) (ok : bool) : fat * list N * list bytes :=
   compute_fix (handlers_c05 handlers r) hs r ok.
